@@ -504,6 +504,11 @@ fn build_msg(spec: &MsgSpec, m: u8, own: usize) -> Built {
         v.extend(pb_bytes(8, &rec_env));
     }
     // lie labels
+    if let (KeySpec::Other(i), RecSpec::Signed(r)) = (&spec.key, &spec.rec) {
+        if r.signer == Who::Other(*i) && r.subject == Who::Other(*i) && r.dom == Dom::Legacy && r.ptype == PType::Legacy && r.tamper == Tamper::None {
+            labels.push("lie:consistent-foreign-identity(key+record)");
+        }
+    }
     match key_class {
         KeyClass::Foreign => labels.push("lie:key-foreign"),
         KeyClass::Absent => labels.push("key:absent"),
@@ -677,6 +682,35 @@ fn key_spec(honest: bool, push: bool) -> BoxedStrategy<KeySpec> {
 /// `honest` = every dimension honest; otherwise each dimension is drawn from its lying mix
 /// independently with the given probability, so that single-lie messages are frequent.
 fn msg_spec(push: bool) -> BoxedStrategy<MsgSpec> {
+    prop_oneof![12 => msg_spec_mixed(push), 1 => impersonation()].boxed()
+}
+
+/// A message that is entirely consistent — for another identity: its key, a valid record signed
+/// by and for it, addresses ending in its /p2p (an honest message of peer X replayed on a
+/// connection to the peer under test).
+fn impersonation() -> BoxedStrategy<MsgSpec> {
+    (0u8..8, any::<bool>(), proptest::collection::vec(0u8..5, 0..3), proptest::collection::vec(0u8..5, 0..3), any::<bool>())
+        .prop_map(|(i, with_rec, l, r, p2p)| {
+            let mk = |t: &u8| AddrSpec { transport: *t, tail: if p2p { Tail::P2p(Who::Other(i)) } else { Tail::None }, garb: Garb::No };
+            MsgSpec {
+                key: KeySpec::Other(i),
+                rec: if with_rec {
+                    RecSpec::Signed(SignedSpec { signer: Who::Other(i), subject: Who::Other(i), dom: Dom::Legacy, ptype: PType::Legacy, tamper: Tamper::None, addrs: r.iter().map(mk).collect(), seq: 1, lib_built: true })
+                } else {
+                    RecSpec::None
+                },
+                listen: l.iter().map(mk).collect(),
+                agent: true,
+                pver: true,
+                protocols: 2,
+                observed: 1,
+                unknown_field: false,
+            }
+        })
+        .boxed()
+}
+
+fn msg_spec_mixed(push: bool) -> BoxedStrategy<MsgSpec> {
     let dims = (proptest::bool::weighted(0.3), proptest::bool::weighted(0.35), proptest::bool::weighted(0.3), proptest::bool::weighted(0.45));
     dims.prop_flat_map(move |(lie_key, lie_rec, lie_addr, all_honest)| {
         let (lk, lr, la) = if all_honest { (false, false, false) } else { (lie_key, lie_rec, lie_addr) };
